@@ -51,6 +51,33 @@ def relevant_generated(obl, theory_ax):
     return out
 
 
+_AX_SYMS = {}
+
+
+def relevant_theory(obl, theory_ax):
+    """theory axioms reachable from the symbols of the obligation (transitively: an axiom that shares an uninterpreted function with what is
+    already selected is selected, and brings its own symbols).  An axiom about functions that occur nowhere cannot take part in a proof;
+    leaving it out keeps the queries small and the proofs stable when unrelated lemmas are added to a theory"""
+    syms = set(); seen = set()
+    for f in obl.hyps + [obl.goal]: uf_symbols(f, syms, seen)
+    pend = []
+    for f in theory_ax:
+        k = f.get_id()
+        if k not in _AX_SYMS: _AX_SYMS[k] = uf_symbols(f)
+        pend.append((f, _AX_SYMS[k]))
+    out = []; changed = True
+    while changed:
+        changed = False; rest = []
+        for f, fs in pend:
+            if not fs or (fs & syms):
+                out.append(f); syms |= fs; changed = True
+            else:
+                rest.append((f, fs))
+        pend = rest
+    keep = set(f.get_id() for f in out)
+    return [f for f in theory_ax if f.get_id() in keep]        # original order
+
+
 def generate(c):
     """-> (obligations, info)   raises Unsupported / KeyError for binding failures"""
     node, seg, h = c.load()
@@ -122,8 +149,10 @@ def verify(c, timeout=10, jobs=16, keep_dir=None):
         return {'fn': c.qualname, 'status': 'unbound', 'reason': '%s: %s' % (type(e).__name__, e), 'trace': traceback.format_exc(), 'obligations': []}
     ax = theory_axioms(c)
     todo = [o for o in obls if o.backend != 'effects']
-    for o in todo: o.hyps = relevant_generated(o, ax) + o.hyps
-    discharge(todo, ax, timeout=timeout, jobs=jobs, keep_dir=keep_dir)
+    for o in todo:
+        rax = relevant_theory(o, ax) if o.kind != 'canary' else ax
+        o.hyps = rax + relevant_generated(o, rax) + o.hyps
+    discharge(todo, [], timeout=timeout, jobs=jobs, keep_dir=keep_dir)
     failed = [o for o in obls if (o.kind != 'canary' and o.status != 'unsat') or (o.kind == 'canary' and o.status == 'unsat')]
     return {'fn': c.qualname, 'status': 'proved' if not failed else 'failed', 'obligations': obls, 'failed': failed, 'info': info,
             'wall_s': time.time() - t0}
@@ -141,7 +170,9 @@ def verify_many(contracts, timeout=10, jobs=16, keep_dir=None):
             continue
         ax = theory_axioms(c)
         todo = [o for o in obls if o.backend != 'effects']
-        for o in todo: o.hyps = ax + relevant_generated(o, ax) + o.hyps
+        for o in todo:
+            rax = relevant_theory(o, ax) if o.kind != 'canary' else ax
+            o.hyps = rax + relevant_generated(o, rax) + o.hyps
         batch += todo
         res[c.key] = {'fn': c.qualname, 'status': None, 'obligations': obls, 'info': info}
     discharge(batch, [], timeout=timeout, jobs=jobs, keep_dir=keep_dir)
